@@ -89,28 +89,34 @@ class DelayedDestructor {
             elementSize = ElementsToBeDestroyed.size();
             if (elementSize > 0) {
                 std::vector<std::shared_ptr<X>> ecall;
-                std::vector<void*> epointers;
                 for (auto& element : ElementsToBeDestroyed) {
                     if (element.use_count() == 1) {
                         ecall.push_back(element);
-                        epointers.emplace_back(element.get());
                     }
                 }
-                if (!epointers.empty()) {
+                if (!ecall.empty()) {
+                    // the selected elements are identified by ownership
+                    // (control block) not by address: an aliasing
+                    // shared_ptr can share its address with an element
+                    // that is still in use
+                    auto selected = [&ecall](const auto& element) {
+                        for (const auto& sel : ecall) {
+                            if (!sel.owner_before(element) &&
+                                !element.owner_before(sel)) {
+                                return true;
+                            }
+                        }
+                        return false;
+                    };
                     // so apparently remove_if can actually call the
                     // destructor for shared_ptrs so the call function needs
                     // to be before this call
                     auto loc =
                         std::remove_if(ElementsToBeDestroyed.begin(),
                                        ElementsToBeDestroyed.end(),
-                                       [&epointers](const auto& element) {
-                                           return (
-                                               (element.use_count() == 2) &&
-                                               (std::find(epointers.begin(),
-                                                          epointers.end(),
-                                                          static_cast<void*>(
-                                                              element.get())) !=
-                                                epointers.end()));
+                                       [&selected](const auto& element) {
+                                           return (element.use_count() == 2) &&
+                                               selected(element);
                                        });
                     ElementsToBeDestroyed.erase(loc,
                                                 ElementsToBeDestroyed.end());
@@ -254,28 +260,34 @@ class DelayedDestructorSingleThread {
             elementSize = ElementsToBeDestroyed.size();
             if (elementSize > 0) {
                 std::vector<std::shared_ptr<X>> ecall;
-                std::vector<void*> epointers;
                 for (auto& element : ElementsToBeDestroyed) {
                     if (element.use_count() == 1) {
                         ecall.push_back(element);
-                        epointers.emplace_back(element.get());
                     }
                 }
-                if (!epointers.empty()) {
+                if (!ecall.empty()) {
+                    // the selected elements are identified by ownership
+                    // (control block) not by address: an aliasing
+                    // shared_ptr can share its address with an element
+                    // that is still in use
+                    auto selected = [&ecall](const auto& element) {
+                        for (const auto& sel : ecall) {
+                            if (!sel.owner_before(element) &&
+                                !element.owner_before(sel)) {
+                                return true;
+                            }
+                        }
+                        return false;
+                    };
                     // so apparently remove_if can actually call the
                     // destructor for shared_ptrs so the call function needs
                     // to be before this call
                     auto loc =
                         std::remove_if(ElementsToBeDestroyed.begin(),
                                        ElementsToBeDestroyed.end(),
-                                       [&epointers](const auto& element) {
-                                           return (
-                                               (element.use_count() == 2) &&
-                                               (std::find(epointers.begin(),
-                                                          epointers.end(),
-                                                          static_cast<void*>(
-                                                              element.get())) !=
-                                                epointers.end()));
+                                       [&selected](const auto& element) {
+                                           return (element.use_count() == 2) &&
+                                               selected(element);
                                        });
                     ElementsToBeDestroyed.erase(loc,
                                                 ElementsToBeDestroyed.end());
